@@ -44,6 +44,7 @@ type Exec struct {
 	params map[string]string
 	inlineDepth  int
 	inlinedFuncs []string
+	bePaths      []*bePath
 }
 
 func (x *Exec) info() *types.Info { return x.fn.pkg.TypesInfo }
